@@ -14,7 +14,7 @@ func init() { register("C17", "model_checking", checkC17) }
 func checkC17(c *core.Check) {
 	c.Assumptions = []string{
 		"methods and headers handed to the CORS factory are compared as sets and must not contain duplicates; header names are canonicalised with http.CanonicalHeaderKey",
-		"a preflight is matched to its path item by the C03 rule, the synthetic CORS operation competing with declared OPTIONS operations; without a CORSHandler both 'not found' and dispatch to a less specific declared OPTIONS operation are admitted",
+		"a preflight is matched to its path item by the C03 rule, the synthetic CORS operation of a path item without OPTIONS competing with declared OPTIONS operations; without a CORSHandler installed that preflight is not found (a less specific declared OPTIONS operation does not take over)",
 		"the headers a security scheme reads: Authorization for http-bearer, the header name for apiKey-in-header (effective requirement of each operation of the path item)",
 	}
 	thorough := c.Tier == "thorough"
